@@ -33,9 +33,9 @@ pub fn coq_list_z(xs: &[i64]) -> String {
     format!("[{}]", v.join(";"))
 }
 
-/// Integer-valued test data in [-8, 8]; the same formula is `gen` in coq/gemm/ModelC16.v.
+/// Integer-valued test data in [-8, 7]; the same formula is `gen` in coq/gemm/ModelC16.v.
 pub fn gen_val(s: u64, i: u64, j: u64) -> i64 {
-    ((s * 7919 + i * 31 + j * 17 + ((i * j) % 7) * 5 + (((i + s) * (j + 3)) % 11)) % 17) as i64 - 8
+    ((s + i * 5 + j * 3 + i * j * 7 + (i >> 4) * 3 + (j >> 4) * 5) & 15) as i64 - 8
 }
 
 /// Sentinel printed for an output value that is not an exactly representable integer (NaN,
